@@ -383,7 +383,11 @@ func (a *ACL) AllowOperation(ctx context.Context, req *logical.Request, capCheck
 	// is a parent (ancestor) of the namespace of the current request, if so
 	// then allow the request (fast-pathing as root), otherwise reject
 	if a.root != nil {
-		if !ns.HasParent(a.root) {
+		// The path may itself lead into a child namespace of the context's
+		// namespace (sys/capabilities asked in a parent namespace, the
+		// fully-qualified paths SudoPrivilege checks in the root context),
+		// so judge the namespace-qualified path, as the non-root rules do.
+		if !ns.HasParent(a.root) && !strings.HasPrefix(strings.TrimLeft(ns.Path+req.Path, "/"), a.root.Path) {
 			return ret
 		}
 		ret.Allowed = true
